@@ -18,6 +18,18 @@ pub(crate) fn c18_attr_byte_roundtrip(s: &mut impl Src) {
     let m = mode_of(s);
     assert!(TextAttribute::from_u8(b, m).as_u8(m) == b);
 }
+// C05 / C06: TextAttribute::from_u8 equals the decoding rule of the file formats (spec fn from_u8_spec of unit xbin_load, transcribed):
+// all 256 bytes x 3 modes, so ANY formulation of the masks and shifts in the code is decided here, not by bit-vector hints in the Verus unit
+pub(crate) fn c05_from_u8_fields(s: &mut impl Src) {
+    let a = s.u8();
+    let m = mode_of(s);
+    let ice = matches!(m, IceMode::Ice);
+    let r = TextAttribute::from_u8(a, m);
+    assert!(r.get_font_page() == 0);
+    assert!(r.get_foreground() == (a & 0b1111) as u32);
+    assert!(r.get_background() == if ice { (a >> 4) as u32 } else { ((a >> 4) & 0b0111) as u32 });
+    assert!(r.attr == if !ice && a & 0b1000_0000 != 0 { 0b1000u16 } else { 0u16 });
+}
 // C18: every (fg, bg, blink, bold) expressible in a mode survives encode then decode on fg/bg/blink.
 // expressible: blink mode (and unlimited, which decodes like blink): bg < 8; ice: not blinking.
 // bold is folded into fg bit 3 by the encoder, so the tuple is expressible when bold implies fg >= 8 is what is shown
@@ -114,6 +126,7 @@ include!("/verif/kc/harness_macro.rs");
 kc_harness! {
     c18_attr_byte_roundtrip;
     c18_attr_tuple_roundtrip;
+    c05_from_u8_fields;
     c18_cp437_table_injective;
     c18_cp437_ascii_identity;
     c18_atascii_table_injective_128;
